@@ -55,14 +55,13 @@ def parse_newick(string):
             # Remove branch definition from string
             string = string[:start] + string[end + 1:]
 
-    def collect(d):
+    # Attach each parsed branch definition to the entry of its parent (all
+    # dictionaries are shared, so no recursion is needed and trees can be
+    # deeper than the recursion limit)
+    for d in list(items.values()):
         for item in d:
             if item in items:
-                collect(items[item])
                 d[item] = (items[item], d[item])
-        return
-
-    collect(items['trunk'])
 
     return items['trunk']
 
@@ -86,27 +85,35 @@ def parse_dendrogram(newick, data, index_map, params, wcs=None):
         flux_by_structure, indices_by_structure = _slow_reader(d.index_map, data)
 
     def _construct_tree(repr):
+        # Build the structures bottom-up with an explicit stack rather than
+        # by recursion, since trees can be deeper than the recursion limit.
+        # Each frame is [parsed representation, iterator over its ids,
+        # structures built so far, idx of the branch they are children of]
         structures = []
-        for idx in repr:
-            idx = int(idx)
-            structure_indices = indices_by_structure[idx]
-            f = flux_by_structure[idx]
-            if type(repr[idx]) is tuple:
-                sub_structures_repr = repr[idx][0]  # Parsed representation of sub structures
-                sub_structures = _construct_tree(sub_structures_repr)
-                for i in sub_structures:
-                    d._structures_dict[i.idx] = i
-                branch = Structure(structure_indices, f, children=sub_structures, idx=idx, dendrogram=d)
-                # Correct merge levels - complicated because of the
-                # order in which we are building the tree.
-                # What we do is look at the heights of this branch's
-                # 1st child as stored in the newick representation, and then
-                # work backwards to compute the merge level of this branch
-                d._structures_dict[idx] = branch
-                structures.append(branch)
+        stack = [[repr, iter(repr), structures, None]]
+        while stack:
+            rep, ids, built, owner = stack[-1]
+            try:
+                idx = next(ids)
+            except StopIteration:
+                stack.pop()
+                if owner is not None:
+                    # All sub-structures of branch `owner` have been built
+                    for i in built:
+                        d._structures_dict[i.idx] = i
+                    branch = Structure(indices_by_structure[owner],
+                                       flux_by_structure[owner],
+                                       children=built, idx=owner, dendrogram=d)
+                    d._structures_dict[owner] = branch
+                    stack[-1][2].append(branch)
+                continue
+            if type(rep[idx]) is tuple:
+                sub_structures_repr = rep[idx][0]  # Parsed representation of sub structures
+                stack.append([sub_structures_repr, iter(sub_structures_repr), [], int(idx)])
             else:
-                leaf = Structure(structure_indices, f, idx=idx, dendrogram=d)
-                structures.append(leaf)
+                idx = int(idx)
+                leaf = Structure(indices_by_structure[idx], flux_by_structure[idx], idx=idx, dendrogram=d)
+                built.append(leaf)
                 d._structures_dict[idx] = leaf
         return structures
 
